@@ -14,7 +14,7 @@
 (*            walk wraps the current tree into a deeper one; trees of      *)
 (*            depth MinEmitDepth..MaxSimDepth are emitted.                 *)
 (***************************************************************************)
-EXTENDS C11, Json, Params, Randomization
+EXTENDS C11, Json, Params, Randomization, SequencesExt
 
 VARIABLES t,     \* SpecLaws, SpecSim: the current tree.  SpecGen: the shape
           ph,    \* phase
@@ -67,21 +67,29 @@ SimOps == {"*", "div", "mod", "+", "-", "&", "<", "<=", ">", ">=", "=", "!=", "a
 SimSibs == {LeafPool[j] : j \in 1..NLeaf} \cup {RootPool[j] : j \in 1..NRoot}
              \cup {Lit("{}"), Lit("0"), Lit("3"), Bin("+", Lit("1"), Lit("2")), Bin("=", Lit("1"), Lit("1")),
                    Bin("and", Lit("true"), Lit("false")), Pol("-", Lit("2")), Bin("&", Lit("'a'"), Lit("'b'"))}
-Wraps(c) ==
-  {Bin(op, c, s) : op \in SimOps, s \in SimSibs}
-  \cup {Bin(op, s, c) : op \in SimOps, s \in SimSibs}
-  \cup {ApplyU(Unaries[u], c) : u \in 1..NUn}
-  \cup {ArgCtx(n, c) : n \in 1..NArgCtx}
-  \cup {Idx(c, s) : s \in {Lit("0"), Lit("1"), Bin("-", Lit("1"), Lit("1"))}}
-  \cup {Fn("iif", <<s, c, Lit("0")>>) : s \in {Lit("true"), Bin("=", Lit("1"), Lit("1")), PActive}}
+SibSeq == SetToSeq(SimSibs)
+OpSeq == SetToSeq(SimOps)
+(* one random wrapper of c: the form and its parameters are drawn independently *)
+Draw == [f  |-> RandomElement(1..10),
+         op |-> OpSeq[RandomElement(1..Len(OpSeq))],
+         s  |-> SibSeq[RandomElement(1..Len(SibSeq))],
+         u  |-> RandomElement(1..NUn),
+         n  |-> RandomElement(1..NArgCtx)]
+Build(c, d) ==
+  CASE d.f \in {1, 2, 3} -> Bin(d.op, c, d.s)
+    [] d.f \in {4, 5, 6} -> Bin(d.op, d.s, c)
+    [] d.f \in {7, 8}    -> ApplyU(Unaries[d.u], c)
+    [] d.f = 9           -> ArgCtx(d.n, c)
+    [] d.f = 10          -> IF d.u % 2 = 0 THEN Idx(c, IF d.n % 2 = 0 THEN Lit("0") ELSE Bin("-", Lit("1"), Lit("1")))
+                            ELSE Fn("iif", <<IF d.n % 2 = 0 THEN Bin("=", Lit("1"), Lit("1")) ELSE PActive, c, d.s>>)
 
 SimInit == t \in SimSibs /\ ph = "grow" /\ em = {}
 SimGrow ==
   /\ ph = "grow" /\ Depth(t) < MaxSimDepth
-  /\ LET some == RandomSubset(6, Wraps(t))
-         good == {x \in some : Expected(x).k # "na" /\ ~DividesByZero(x)}
-     IN /\ good # {}
-        /\ t' = RandomElement(good)
+  /\ \E draws \in {<<Draw, Draw, Draw, Draw, Draw, Draw>>} :      \* bound once: a LET would re-draw at every use
+       LET good == {x \in {Build(t, draws[j]) : j \in 1..6} : Expected(x).k # "na" /\ ~DividesByZero(x)}
+       IN /\ good # {}
+          /\ \E x \in {RandomElement(good)} : t' = x
   /\ ph' = "emit" /\ em' = em
 SimEmit ==
   /\ ph = "emit"
